@@ -32,15 +32,15 @@ use swimos_runtime::agent::{
 use swimos_utilities::byte_channel::{byte_channel, ByteReader, ByteWriter};
 use swimos_utilities::trigger::{self, promise};
 use tokio::io::{AsyncReadExt, AsyncWriteExt};
-use tokio::sync::mpsc;
+use tokio::sync::{mpsc, watch};
 use tokio::task::JoinHandle;
 use tokio_util::codec::FramedWrite;
 use uuid::Uuid;
 
-use crate::client::{draw_caps, map_op_reader, value_op_reader};
-use crate::drive::{drive, new_trace, settle, CutMode, ImplObs, Marks, Target, Trace, IO_TIMEOUT};
+use crate::client::{draw_caps, map_op_reader, value_op_reader, Env, Gate};
+use crate::drive::{drive, new_trace, settle, CutMode, ImplObs, Issue, Marks, Target, Trace, IO_TIMEOUT};
 use crate::reference::{Cb, Map};
-use crate::script::{Flags, Kind, LocalOp, Step};
+use crate::script::{Fault, Flags, Kind, LocalOp, Step};
 
 pub const NODE: &str = "/consumer";
 pub const REMOTE_NODE: &str = "/remote";
@@ -67,6 +67,11 @@ pub enum Cmd {
     DropV,
     #[form(tag = "dropm")]
     DropM,
+    /// `handle.stop()` on the value / map downlink.
+    #[form(tag = "stopv")]
+    StopV,
+    #[form(tag = "stopm")]
+    StopM,
 }
 
 type Slot<T> = Arc<Mutex<Option<T>>>;
@@ -80,6 +85,10 @@ pub struct DlLifecycle {
     mhandle: Slot<MapDownlinkHandle<i32, u64>>,
     /// Number of commands executed and of handle calls that reported an error.
     cmds: Arc<Mutex<(u64, u64)>>,
+    /// What `is_linked()` / `is_stopped()` of a handle said in the commands executed after its
+    /// `stop()` (observation only).
+    probes: Arc<Mutex<BTreeMap<String, u64>>>,
+    stopped: Arc<Mutex<(bool, bool)>>,
 }
 
 fn to_btree(m: &HashMap<i32, u64>) -> Map {
@@ -170,8 +179,29 @@ impl DlLifecycle {
     #[on_command(cmd)]
     fn on_cmd(&self, context: HandlerContext<DlAgent>, cmd: &Cmd) -> impl EventHandler<DlAgent> {
         let (vslot, mslot, counts) = (self.vhandle.clone(), self.mhandle.clone(), self.cmds.clone());
+        let (probes, stopped) = (self.probes.clone(), self.stopped.clone());
         let cmd = cmd.clone();
         context.effect(move || {
+            {
+                // The state a handle reports once its downlink has been told to stop.
+                let st = *stopped.lock();
+                let mut p = probes.lock();
+                if st.0 {
+                    if let Some(h) = vslot.lock().as_ref() {
+                        *p.entry(format!("after-stop/value/is_linked={}/is_stopped={}", h.is_linked() as u8, h.is_stopped() as u8)).or_insert(0) += 1;
+                    }
+                }
+                if st.1 {
+                    if let Some(h) = mslot.lock().as_ref() {
+                        *p.entry(format!("after-stop/map/is_linked={}/is_stopped={}", h.is_linked() as u8, h.is_stopped() as u8)).or_insert(0) += 1;
+                    }
+                }
+            }
+            match cmd {
+                Cmd::StopV => stopped.lock().0 = true,
+                Cmd::StopM => stopped.lock().1 = true,
+                _ => {}
+            }
             let ok = match cmd {
                 Cmd::SetV { v } => vslot.lock().as_mut().map(|h| h.set(v).is_ok()),
                 Cmd::Upd { k, v } => mslot.lock().as_ref().map(|h| h.update(k, v).is_ok()),
@@ -179,6 +209,14 @@ impl DlLifecycle {
                 Cmd::Clr => mslot.lock().as_ref().map(|h| h.clear().is_ok()),
                 Cmd::DropV => Some(vslot.lock().take().is_some()),
                 Cmd::DropM => Some(mslot.lock().take().is_some()),
+                Cmd::StopV => vslot.lock().as_mut().map(|h| {
+                    h.stop();
+                    true
+                }),
+                Cmd::StopM => mslot.lock().as_mut().map(|h| {
+                    h.stop();
+                    true
+                }),
             };
             let mut c = counts.lock();
             c.0 += 1;
@@ -211,7 +249,7 @@ pub struct Conn {
     pub output: ByteReader,
 }
 
-async fn link_server(mut link_rx: mpsc::Receiver<LinkRequest>, conns: mpsc::UnboundedSender<Conn>, caps: Vec<usize>, max_accept: usize) {
+async fn link_server(mut link_rx: mpsc::Receiver<LinkRequest>, conns: mpsc::UnboundedSender<Conn>, caps: Vec<usize>, max_accept: usize, out_cap: usize) {
     let mut n = 0usize;
     while let Some(req) = link_rx.recv().await {
         match req {
@@ -226,7 +264,7 @@ async fn link_server(mut link_rx: mpsc::Receiver<LinkRequest>, conns: mpsc::Unbo
                         let cap_in = caps[n % caps.len()];
                         n += 1;
                         let (in_tx, in_rx) = byte_channel(nz(cap_in));
-                        let (out_tx, out_rx) = byte_channel(nz(256));
+                        let (out_tx, out_rx) = byte_channel(nz(out_cap));
                         if d.promise.send(Ok((out_tx, in_rx))).is_ok() {
                             let _ = conns.send(Conn { kind, input: in_tx, output: out_rx });
                         }
@@ -251,6 +289,49 @@ struct HostedTarget {
     cmd: FramedWrite<ByteWriter, RawRequestMessageEncoder>,
     remote_id: Uuid,
     stuck: Vec<String>,
+    /// Connections the agent was given and the harness has not taken up yet.
+    conn_rx: mpsc::UnboundedReceiver<Conn>,
+    /// The tasks reading what the downlinks write (one per live connection).
+    readers: Vec<(Kind, JoinHandle<()>)>,
+    v_out: Arc<Mutex<Vec<u64>>>,
+    m_out: Arc<Mutex<Vec<LocalOp>>>,
+    /// One gate per kind: it governs the reader of every connection of that kind.
+    v_gate: Gate,
+    m_gate: Gate,
+    connections: usize,
+}
+
+impl HostedTarget {
+    /// Take up the connections the agent asked for since the last call: the script continues on
+    /// them. True when one of them belongs to the downlink of `want`.
+    fn pickup(&mut self, want: Kind) -> bool {
+        let mut got = false;
+        while let Ok(c) = self.conn_rx.try_recv() {
+            self.connections += 1;
+            got |= c.kind == want;
+            match c.kind {
+                Kind::Value => {
+                    self.v_in = Some(c.input);
+                    self.readers.push((Kind::Value, tokio::spawn(value_op_reader(c.output, self.v_out.clone(), self.v_gate.subscribe()))));
+                }
+                Kind::Map => {
+                    self.m_in = Some(c.input);
+                    self.readers.push((Kind::Map, tokio::spawn(map_op_reader(c.output, self.m_out.clone(), self.m_gate.subscribe()))));
+                }
+            }
+        }
+        got
+    }
+
+    /// The consumer(s) of the output of the downlink of `kind` go away.
+    async fn drop_readers(&mut self, kind: Kind) {
+        let (gone, kept): (Vec<_>, Vec<_>) = std::mem::take(&mut self.readers).into_iter().partition(|(k, _)| *k == kind);
+        self.readers = kept;
+        for (_, r) in gone {
+            r.abort();
+            let _ = r.await;
+        }
+    }
 }
 
 impl HostedTarget {
@@ -291,14 +372,22 @@ impl Target for HostedTarget {
         }
     }
 
-    async fn local(&mut self, _kind: Kind, op: &LocalOp) {
+    async fn local(&mut self, _kind: Kind, op: &LocalOp, _patient: bool) -> Issue {
         let cmd = match op {
             LocalOp::SetV(v) => Cmd::SetV { v: *v },
             LocalOp::Upd(k, v) => Cmd::Upd { k: *k, v: *v },
             LocalOp::Rem(k) => Cmd::Rem { k: *k },
             LocalOp::Clr => Cmd::Clr,
         };
+        // The hosted handles never wait (circular buffer / unbounded queue): a command that was
+        // sent is a write that was issued.
+        let before = self.stuck.len();
         self.command(cmd).await;
+        if self.stuck.len() == before {
+            Issue::Taken
+        } else {
+            Issue::NoHandle
+        }
     }
 
     async fn drop_handle(&mut self, kind: Kind) {
@@ -311,6 +400,38 @@ impl Target for HostedTarget {
         // Inside a script the hosted implementation is run without the fault (the client's reading
         // side must behave as if nothing had happened, so the logs stay comparable); what a failed
         // write does to a hosted downlink is driven by `Loss::OutputFault`.
+    }
+
+    fn output_gate(&mut self, kind: Kind, open: bool) {
+        let _ = match kind {
+            Kind::Value => self.v_gate.send(open),
+            Kind::Map => self.m_gate.send(open),
+        };
+    }
+
+    async fn stop(&mut self, kind: Kind) {
+        self.command(if kind == Kind::Value { Cmd::StopV } else { Cmd::StopM }).await;
+    }
+
+    async fn input_fault(&mut self, kind: Kind, fault: &Fault) {
+        let (bytes, close) = fault.bytes(kind);
+        if !bytes.is_empty() {
+            let _ = self.write(kind, &bytes).await;
+        }
+        if close {
+            match kind {
+                Kind::Value => self.v_in = None,
+                Kind::Map => self.m_in = None,
+            }
+        }
+    }
+
+    async fn after_input_fault(&mut self, kind: Kind) -> (bool, bool) {
+        let slot = if kind == Kind::Value { &self.v_in } else { &self.m_in };
+        // The downlink dropped its reader (or the harness closed the channel itself).
+        let gave_up = slot.as_ref().map_or(true, |w| w.is_closed());
+        let reconnected = self.pickup(kind);
+        (gave_up, reconnected)
     }
 
     fn trace_len(&self, kind: Kind) -> usize {
@@ -331,6 +452,10 @@ pub enum Loss {
     /// silent (no `unlinked`, no end-of-stream passes through the downlink before the agent
     /// replaces the connection).
     OutputFault(LocalOp),
+    /// Output side only, the other way round: the reader of the (small) output channel stalls, the
+    /// local writes are issued - the downlink is now in the middle of a write that cannot complete -
+    /// and then the reader goes away, so that it is the pending write / flush that fails.
+    OutputFaultDuringWrite(Vec<LocalOp>),
 }
 
 /// A scripted loss of the connection to the remote lane after which the agent is expected to ask
@@ -349,6 +474,8 @@ pub struct HostedExtra {
     pub connections: usize,
     pub commands_run: u64,
     pub handle_errors: u64,
+    /// `is_linked()` / `is_stopped()` of the handles as seen by commands run after `stop()`.
+    pub probes: BTreeMap<String, u64>,
     /// For each scripted close: (trace length of the kind before the close, after quiescence,
     /// whether a new connection was requested).
     pub closes: Vec<(Kind, usize, usize, bool)>,
@@ -364,6 +491,24 @@ pub fn run_hosted(
     rng: &mut Rng,
     reconnects: &[Reconnect],
 ) -> (ImplObs, HostedExtra) {
+    run_hosted_in(flags, merged, n_value, n_map, mode, rng, reconnects, &Env::default())
+}
+
+/// As `run_hosted`, with the consumer of the downlinks' outputs configured by `env`.
+#[allow(clippy::too_many_arguments)]
+pub fn run_hosted_in(
+    flags: Flags,
+    merged: &[(Kind, usize, Step)],
+    n_value: usize,
+    n_map: usize,
+    mode: CutMode,
+    rng: &mut Rng,
+    reconnects: &[Reconnect],
+    env: &Env,
+) -> (ImplObs, HostedExtra) {
+    let env = *env;
+    // Every input fault of the script may make the agent ask for one more connection.
+    let script_faults = merged.iter().filter(|(_, _, s)| matches!(s, Step::InputFault(_))).count();
     let rt = tokio::runtime::Builder::new_current_thread().enable_time().start_paused(true).build().expect("tokio runtime");
     let mut rng = rng.clone();
     rt.block_on(async move {
@@ -371,7 +516,17 @@ pub fn run_hosted(
         let mut extra = HostedExtra::default();
         let (vtrace, mtrace) = (new_trace(), new_trace());
         let cmds = Arc::new(Mutex::new((0u64, 0u64)));
-        let lc = DlLifecycle { vtrace: vtrace.clone(), mtrace: mtrace.clone(), flags, vhandle: Default::default(), mhandle: Default::default(), cmds: cmds.clone() };
+        let probes: Arc<Mutex<BTreeMap<String, u64>>> = Default::default();
+        let lc = DlLifecycle {
+            vtrace: vtrace.clone(),
+            mtrace: mtrace.clone(),
+            flags,
+            vhandle: Default::default(),
+            mhandle: Default::default(),
+            cmds: cmds.clone(),
+            probes: probes.clone(),
+            stopped: Default::default(),
+        };
         let agent = AgentModel::new(DlAgent::default, lc.into_lifecycle());
         let (att_tx, att_rx) = mpsc::channel(8);
         let (_http_tx, http_rx) = mpsc::channel(1);
@@ -385,8 +540,9 @@ pub fn run_hosted(
         let caps = draw_caps(&mut rng, mode);
         let jitter = *rng.pick(&[0u64, 0, 50, 300]);
         let agent_handle: JoinHandle<Result<(), AgentExecError>> = tokio::spawn(Jitter::new(task.run_agent(), rng.fork(), jitter));
-        let (conn_tx, mut conn_rx) = mpsc::unbounded_channel();
-        let server = tokio::spawn(link_server(link_rx, conn_tx, vec![caps[0], caps[3], caps[2], caps[5]], 2 + reconnects.len()));
+        let (conn_tx, conn_rx) = mpsc::unbounded_channel();
+        let server =
+            tokio::spawn(link_server(link_rx, conn_tx, vec![caps[0], caps[3], caps[2], caps[5]], 2 + reconnects.len() + script_faults, env.out_cap.unwrap_or(256)));
 
         // Remote used to reach the command lane.
         let remote_id = Uuid::from_u128(0x1001);
@@ -406,35 +562,33 @@ pub fn run_hosted(
         });
         settle().await;
 
-        let mut v_in = None;
-        let mut m_in = None;
         let v_out = Arc::new(Mutex::new(Vec::new()));
         let m_out = Arc::new(Mutex::new(Vec::new()));
-        let mut readers: Vec<(Kind, JoinHandle<()>)> = vec![];
-        while let Ok(c) = conn_rx.try_recv() {
-            extra.connections += 1;
-            match c.kind {
-                Kind::Value => {
-                    v_in = Some(c.input);
-                    readers.push((Kind::Value, tokio::spawn(value_op_reader(c.output, v_out.clone()))));
-                }
-                Kind::Map => {
-                    m_in = Some(c.input);
-                    readers.push((Kind::Map, tokio::spawn(map_op_reader(c.output, m_out.clone()))));
-                }
-            }
-        }
-        if !attached || v_in.is_none() || m_in.is_none() || agent_handle.is_finished() {
+        let mut target = HostedTarget {
+            vtrace: vtrace.clone(),
+            mtrace: mtrace.clone(),
+            v_in: None,
+            m_in: None,
+            cmd: FramedWrite::new(req_tx, RawRequestMessageEncoder),
+            remote_id,
+            stuck: vec![],
+            conn_rx,
+            readers: vec![],
+            v_out: v_out.clone(),
+            m_out: m_out.clone(),
+            v_gate: watch::channel(!env.out_stalled).0,
+            m_gate: watch::channel(!env.out_stalled).0,
+            connections: 0,
+        };
+        target.pickup(Kind::Value);
+        if !attached || target.v_in.is_none() || target.m_in.is_none() || agent_handle.is_finished() {
             obs.stuck.push(format!(
                 "hosted set-up incomplete: attached={attached} value_conn={} map_conn={} agent_finished={}",
-                v_in.is_some(),
-                m_in.is_some(),
+                target.v_in.is_some(),
+                target.m_in.is_some(),
                 agent_handle.is_finished()
             ));
         }
-
-        let mut target =
-            HostedTarget { vtrace: vtrace.clone(), mtrace: mtrace.clone(), v_in, m_in, cmd: FramedWrite::new(req_tx, RawRequestMessageEncoder), remote_id, stuck: vec![] };
 
         // Drive the script, cut at the scripted connection losses.
         let mut marks = Marks::new(n_value, n_map);
@@ -458,36 +612,33 @@ pub fn run_hosted(
                 },
                 Loss::OutputFault(op) => {
                     // Dropping the reading task(s) drops the `ByteReader` of the output channel.
-                    let (gone, kept): (Vec<_>, Vec<_>) = std::mem::take(&mut readers).into_iter().partition(|(k, _)| *k == rc.kind);
-                    readers = kept;
-                    for (_, r) in gone {
-                        r.abort();
-                        let _ = r.await;
-                    }
+                    target.drop_readers(rc.kind).await;
                     settle().await;
-                    target.local(rc.kind, op).await;
+                    target.local(rc.kind, op, true).await;
+                }
+                Loss::OutputFaultDuringWrite(ops) => {
+                    target.output_gate(rc.kind, false);
+                    settle().await;
+                    for op in ops {
+                        target.local(rc.kind, op, true).await;
+                        settle().await;
+                    }
+                    target.drop_readers(rc.kind).await;
+                    // The new connection's reader must read.
+                    target.output_gate(rc.kind, true);
                 }
             }
             settle().await;
             settle().await;
             let after = target.trace_len(rc.kind);
-            let mut reconnected = false;
-            while let Ok(c) = conn_rx.try_recv() {
-                extra.connections += 1;
-                reconnected |= c.kind == rc.kind;
-                match c.kind {
-                    Kind::Value => {
-                        target.v_in = Some(c.input);
-                        readers.push((Kind::Value, tokio::spawn(value_op_reader(c.output, v_out.clone()))));
-                    }
-                    Kind::Map => {
-                        target.m_in = Some(c.input);
-                        readers.push((Kind::Map, tokio::spawn(map_op_reader(c.output, m_out.clone()))));
-                    }
-                }
-            }
+            let reconnected = target.pickup(rc.kind);
             extra.closes.push((rc.kind, before, after, reconnected));
         }
+        // Whatever the script did with the consumers of the outputs: they read from now on.
+        target.output_gate(Kind::Value, true);
+        target.output_gate(Kind::Map, true);
+        settle().await;
+        settle().await;
         obs.marks = marks;
         obs.vtrace = vtrace.lock().clone();
         obs.mtrace = mtrace.lock().clone();
@@ -514,7 +665,8 @@ pub fn run_hosted(
             }
             Err(_) => obs.problems.push(("no-termination-after-stop", "agent", "the agent did not stop within 120 virtual seconds of the stop signal".into())),
         }
-        let HostedTarget { stuck, v_in, m_in, cmd, .. } = target;
+        let HostedTarget { stuck, v_in, m_in, cmd, readers, connections, v_gate, m_gate, .. } = target;
+        extra.connections = connections;
         drop((v_in, m_in, cmd));
         settle().await;
         obs.v_after_close = vtrace.lock()[obs.vtrace.len()..].to_vec();
@@ -525,11 +677,13 @@ pub fn run_hosted(
         let c = cmds.lock();
         extra.commands_run = c.0;
         extra.handle_errors = c.1;
+        extra.probes = probes.lock().clone();
         server.abort();
         drain.abort();
         for (_, r) in readers {
             r.abort();
         }
+        drop((v_gate, m_gate));
         (obs, extra)
     })
 }
